@@ -194,6 +194,32 @@ class TupSeqV:
         return f"TupSeqV(len={self.n}, arity={len(self.comps)})"
 
 
+class RowsV:
+    """list of symbolic length whose elements are tuples of ints of a fixed arity (struct of arrays: one IntSeq term
+    per column, all of one length).  Models a plan such as [(out_len, offset, b, e), ...]."""
+    __slots__ = ("comps", "kind")
+
+    def __init__(self, comps, kind="list"):
+        self.comps, self.kind = list(comps), kind
+
+    @property
+    def n(self):
+        return f_len(self.comps[0])
+
+    def get(self, t):
+        return TupV([Opt(False, f_at(c, _i(t))) for c in self.comps], "tuple")
+
+    def col(self, k):
+        return SeqV(self.comps[k], "tuple")
+
+    @staticmethod
+    def empty(arity, kind="list"):
+        return RowsV([c_empty for _ in range(arity)], kind)
+
+    def __repr__(self):
+        return f"RowsV(arity={len(self.comps)})"
+
+
 class SortedItemsV:
     """sorted(d.items()) of a dict[int -> slice]: the increasing key sequence plus the map"""
     __slots__ = ("m", "keys", "n")
@@ -722,7 +748,7 @@ def item(t, i):
 def slen(t):
     if isinstance(t, SeqV):
         return f_len(t.t)
-    if isinstance(t, (SliceSeqV, TupSeqV)):
+    if isinstance(t, (SliceSeqV, TupSeqV, RowsV)):
         return t.n
     if isinstance(t, TupV):
         return len(t.items)
@@ -741,6 +767,8 @@ def elem(t, i):
     """i-th element of a sequence of slices / of tuples (symbolic SliceSeqV, TupSeqV) or of a concrete list"""
     if isinstance(t, (SliceSeqV, TupSeqV)):
         return t.get(_i(i))
+    if isinstance(t, RowsV):
+        return tuple(f_at(c, _i(i)) for c in t.comps)
     if isinstance(t, TupV):
         return t.items[i]
     return t[i]
